@@ -41,6 +41,18 @@ def main(argv):
         for h in registry.load():
             print(h["prop"], h["tier"], h["fs"], h.full, h["timeout"])
         return 0
+    if a.replay and not os.path.exists(os.path.join(a.replay, "replay.json")) and os.path.exists(os.path.join(a.replay, "tests", "replay.rs")):
+        # replay project written by the mir2smt engine: an ordinary cargo test against /repo
+        import subprocess, shutil
+        e = dict(os.environ)
+        e["CARGO_NET_OFFLINE"] = "true"
+        p = subprocess.run(["cargo", "test", "--offline", "--test", "replay"], cwd=a.replay, env=e,
+                           stdout=subprocess.PIPE, stderr=subprocess.STDOUT, text=True)
+        shutil.rmtree(os.path.join(a.replay, "target"), ignore_errors=True)
+        print(p.stdout[-3000:])
+        failed = "test result: FAILED" in p.stdout or "panicked" in p.stdout
+        print("REPRODUCED" if failed else "NOT-REPRODUCED")
+        return 1 if failed else 0
     if a.replay:
         ok, det = replay.run_dir(a.replay, verbose=True)
         print(json.dumps(det, indent=1))
